@@ -29,6 +29,7 @@ DEFAULTS = dict(
     min_list_len=0,      # C05: 1 keeps empty list literals (type not ground) away
     p_head_perm=0.0,     # named head arguments listed in a drawn order (per rule / fact)
     p_if_composite=0.0,  # if-then-else whose branches are lists / records
+    p_recif=0.0,         # a variable bound to a record-valued if-then-else, read >= 2 times
 )
 
 
@@ -619,8 +620,33 @@ class Gen(object):
             body = self.body(env, o['nest_depth'])
             if self.chance(o['p_or']):
                 body.append(self.disjunction(env))
+            recv = None
+            if o['p_recif'] and env and self.chance(o['p_recif']):
+                # v == (if c then {a:.., b:..} else {a:.., b:..}), then v.a / v.b read in a
+                # comparison and in the head: several subscripts of one conditional record
+                def reclit():
+                    return ('rec', (('a', self.expr('N', env, 1, False)),
+                                    ('b', self.expr('S', env, 1, False))))
+                cond = self.boolexpr(env, 1)
+                alts = [reclit(), reclit()]
+                if self.chance(0.3):
+                    alts.append(reclit())
+                e = alts[-1]
+                for alt in reversed(alts[:-1]):
+                    e = ('if', cond, alt, e)
+                    cond = self.boolexpr(env, 1)
+                recv = self.newvar(env, 'R')
+                body.append(('assign', recv, e, '=='))
+                if self.chance(0.6):
+                    body.append(('cmp', rng.choice(['<=', '>=', '!=']),
+                                 ('field', ('var', recv), 'a'), self.lit_of('N')))
+                self.labels.add('record_if_read_twice')
             head = []
             for f, t in zip(fields, types):
+                if recv is not None and f not in aggs and t in ('N', 'S') and \
+                        self.chance(0.7):
+                    head.append((f, ('field', ('var', recv), 'a' if t == 'N' else 'b')))
+                    continue
                 if f in aggs:
                     head.append((f, ('AGG', aggs[f], self.agg_head_expr(aggs[f], t, env))))
                 else:
